@@ -53,16 +53,23 @@ DeriveRule(scope) == R(D(X), <<F(X)>>, scope)
 
 \* program skeleton: n blocks with external keys e (sequence), one optional rule
 \* (owner ro, scope rs), one optional check (owner co), block scope bs on `so`
-Skeleton(n, e, ro, rs, co, chk, so, bs, policies) ==
+SkeletonR(n, e, ro, rules, co, chk, so, bs, policies) ==
     [blocks |-> [i \in 1..n |->
                    MkBlock(i - 1, IF i = 1 THEN "none" ELSE e[i - 1],
                            IF so = i - 1 THEN bs ELSE {},
-                           IF ro = i - 1 THEN <<DeriveRule(rs)>> ELSE <<>>,
+                           IF ro = i - 1 THEN rules ELSE <<>>,
                            IF co = i - 1 THEN <<chk>> ELSE <<>>)],
      authz |-> MkAuthz(IF so = AZ THEN bs ELSE {},
-                       IF ro = AZ THEN <<DeriveRule(rs)>> ELSE <<>>,
+                       IF ro = AZ THEN rules ELSE <<>>,
                        IF co = AZ THEN <<chk>> ELSE <<>>,
                        policies)]
+Skeleton(n, e, ro, rs, co, chk, so, bs, policies) == SkeletonR(n, e, ro, <<DeriveRule(rs)>>, co, chk, so, bs, policies)
+
+\* the same derivation in two passes: m(x) <- f(x); d(x) <- m(x).  A rule of another block that derives
+\* d(x) in ONE pass reaches the fact first, under a larger origin; the two-pass derivation must still
+\* add its own (smaller, more widely trusted) origin.
+M(c) == Atom("m", <<c>>)
+ChainRules(scope) == <<R(M(X), <<F(X)>>, scope), R(D(X), <<M(X)>>, scope)>>
 
 NoOwner == 77
 
@@ -81,6 +88,7 @@ SeedOK(sd) ==
     /\ (Universe = "alts") => sd.ro = NoOwner
     /\ (Universe = "guards") => (sd.n = 1 /\ sd.ro = NoOwner /\ sd.e1 = "none")
     /\ (Universe = "atten") => (sd.n < MaxBlocks /\ sd.e2 = "none" /\ sd.ro # sd.n)
+    /\ (Universe = "passes") => (sd.n >= 2 /\ sd.ro = NoOwner)
 
 PickChecks(sd) ==
     \E rs \in ScopeMenu, co \in Owners(MaxBlocks), k \in Kinds, qb \in QBodies, cs \in ScopeMenu, bs \in ScopeMenu :
@@ -132,10 +140,11 @@ MinorScopes == IF Small THEN {{}, {"previous"}} ELSE ScopeMenu
 PickAtten(sd) ==
     \E ee \in Exts, rs \in MinorScopes, co \in Owners(MaxBlocks - 1), k \in AttenKinds, qb \in AttenQB,
        sc \in ({<<s, {}>> : s \in ScopeMenu} \cup {<<{}, s>> : s \in ScopeMenu}),   \* <<check scope, block scope>>
-       er \in ExtRules, ec \in ExtChecks, es \in MinorScopes, pol \in AttenPolicies :
-        /\ (sd.ro = NoOwner) => rs = {}
+       er \in ExtRules, ec \in ExtChecks, es \in MinorScopes, pol \in AttenPolicies, chain \in BOOLEAN :
+        /\ (sd.ro = NoOwner) => (rs = {} /\ ~chain)
         /\ (co \in 0..(MaxBlocks-1)) => co < sd.n
-        /\ prog' = Skeleton(sd.n, <<sd.e1, "none">>, sd.ro, rs, co, Chk(k, <<Q(qb, sc[1])>>), co, sc[2], <<pol, Pol("deny", <<Q(<<>>, {})>>)>>)
+        /\ prog' = SkeletonR(sd.n, <<sd.e1, "none">>, sd.ro, IF chain THEN ChainRules(rs) ELSE <<DeriveRule(rs)>>,
+                             co, Chk(k, <<Q(qb, sc[1])>>), co, sc[2], <<pol, Pol("deny", <<Q(<<>>, {})>>)>>)
         /\ extb' = [ext |-> ee, scope |-> es, facts |-> {F("bE")}, rules |-> er, checks |-> ec]
         /\ Untrusting(prog', ee)
 
@@ -168,6 +177,29 @@ PickGuards(sd) ==
            /\ extb' = [NoBlock EXCEPT !.ext = IF smallFacts THEN "small-facts" ELSE "none"]
            /\ smallFacts => RunErrors(prog')     \* the first pass fails on a guard before any budget test
 
+\* C11 / C10: the NUMBER OF PASSES of the fixpoint computation is a function of the program (naive
+\* evaluation: every rule of a pass sees the facts known when the pass started), whatever the order in
+\* which the engine visits its rule groups.  A derivation chain m <- f, d <- m, e <- d whose three rules
+\* live in any blocks / the authorizer (so in different trust groups), under an iteration budget of
+\* Passes - 1 (must fail), Passes (boundary: either, but always the same) or Passes + 5 (must succeed).
+EA(c) == Atom("e", <<c>>)
+RulesOwnedBy(id, pairs) == SelectSeq(pairs, LAMBDA pr : pr.o = id)
+OnlyRules(pairs) == [i \in 1..Len(pairs) |-> pairs[i].r]
+PassesOf(P) == Passes(InitialFacts(P), Rules(P))
+
+PickPasses(sd) ==
+    \E o1 \in Owners(sd.n), o2 \in Owners(sd.n), o3 \in Owners(sd.n) \cup {NoOwner}, s2 \in ScopeMenu, s3 \in {{}, {"previous"}}, delta \in {0, 1, 6} :
+        LET pairs == <<[o |-> o1, r |-> R(M(X), <<F(X)>>, {})], [o |-> o2, r |-> R(D(X), <<M(X)>>, s2)]>>
+                     \o (IF o3 = NoOwner THEN <<>> ELSE <<[o |-> o3, r |-> R(EA(X), <<D(X)>>, s3)]>>)
+            P == [blocks |-> [i \in 1..sd.n |->
+                                [MkBlock(i - 1, IF i = 1 THEN "none" ELSE <<sd.e1, sd.e2>>[i - 1], {}, <<>>, <<>>)
+                                    EXCEPT !.rules = OnlyRules(RulesOwnedBy(i - 1, pairs))]],
+                  authz |-> [MkAuthz({}, <<>>, <<>>, <<AllowTrue>>) EXCEPT !.rules = OnlyRules(RulesOwnedBy(AZ, pairs))]]
+        IN /\ PassesOf(P) + delta >= 1
+           /\ prog' = P
+           \* the budget rides in the `scope` field of the (unused) appended block: max_iterations = Passes - 1 + delta
+           /\ extb' = [NoBlock EXCEPT !.ext = "budget", !.scope = {PassesOf(P) + delta - 1}]
+
 NoProg == [blocks |-> <<MkBlock(0, "none", {}, <<>>, <<>>)>>, authz |-> MkAuthz({}, <<>>, <<>>, <<AllowTrue>>)]
 
 Init ==
@@ -183,6 +215,7 @@ Next ==
          [] Universe = "alts"     -> PickAlts(seed)
          [] Universe = "atten"    -> PickAtten(seed)
          [] Universe = "guards"   -> PickGuards(seed)
+         [] Universe = "passes"   -> PickPasses(seed)
 
 Spec == Init /\ [][Next]_vars
 
@@ -221,6 +254,20 @@ ResultOf(P) ==
 
 \* C11 (the property as stated): refuted by TLC for the implemented first-binding-decides rule
 DeterministicAll == (Ready /\ Universe = "guards") => Deterministic(prog)
+
+MaxIterOf == CHOOSE x \in extb.scope : TRUE
+PassOutcomes ==
+    LET p == PassesOf(prog) IN
+    IF MaxIterOf < p THEN {"limit"} ELSE IF MaxIterOf = p THEN {"limit", "result"} ELSE {"result"}
+
+\* the design: a budget strictly below the number of passes always fails, strictly above always succeeds
+PassesDecide ==
+    (Ready /\ Universe = "passes") => (PassOutcomes # {} /\ (MaxIterOf # PassesOf(prog) => Cardinality(PassOutcomes) = 1))
+
+ExportPasses ==
+    (ExportOn /\ Ready /\ Universe = "passes") =>
+        PrintT(<<"OUTC", ToJson([prog |-> prog, outcomes |-> PassOutcomes, small_facts |-> FALSE, max_iter |-> MaxIterOf,
+                                 passes |-> PassesOf(prog), res |-> ResultOf(prog)])>>)
 
 ExportOutcomes ==
     (ExportOn /\ Ready /\ Universe = "guards") =>
